@@ -93,7 +93,130 @@ def seq_info(tx_model, chrom):
         return 'E:' + type(e).__name__
     orf = None if s.orf is None else [int(s.orf.start), int(s.orf.end)]
     return {'seq': str(s.seq), 'orf': orf, 'sec': [[int(x.start), int(x.end)] for x in s.selenocysteine],
-            'id': s.id, 'desc': s.description}
+            'id': s.id, 'desc': s.description, 'loc': loc_of(s)}
+
+def loc_of(s):
+    """the MatchedLocation list attached to a sequence record"""
+    return [[int(x.query.start), int(x.query.end), int(x.ref.start), int(x.ref.end), x.ref.seqname] for x in s.locations]
+
+def err_tag(e):
+    if isinstance(e, ValueError) and e.args and e.args[0] == ERROR_INDEX_IN_INTRON:
+        return 'E:ValueError:intron'
+    return 'E:' + type(e).__name__
+
+def cdna_info(tx_model, chrom):
+    try:
+        s = tx_model.get_cdna_sequence(chrom)
+    except Exception as e:  # noqa
+        return err_tag(e)
+    return {'seq': str(s.seq), 'loc': loc_of(s), 'id': s.id, 'desc': s.description}
+
+def gene_seq_info(gm, chrom):
+    try:
+        s = gm.get_gene_sequence(chrom)
+    except Exception as e:  # noqa
+        return err_tag(e)
+    return {'seq': str(s.seq), 'loc': loc_of(s)}
+
+def snapshot(anno):
+    return {'g': {k: dump_gene(v) for k, v in anno.genes.items()},
+            't': {k: dump_tx(v) for k, v in anno.transcripts.items()}}
+
+def snap_diff(a, b):
+    """first difference between two snapshots: (which, key, [fields])"""
+    for w in 'gt':
+        if list(a[w].keys()) != list(b[w].keys()):
+            return [w, '<keys>', []]
+        for k, v in a[w].items():
+            if b[w][k] != v:
+                return [w, k, sorted(f for f in v if v[f] != b[w][k].get(f))]
+    return None
+
+def do_op(anno, genome, world_chrom, op):
+    """one READ-ONLY operation on an annotation object; returns its canonical result"""
+    kind = op[0]
+    if kind == 'seq':
+        return seq_info_cache(anno.transcripts[op[1]], genome[world_chrom[op[1]]], bool(op[2]))
+    if kind == 'cdna':
+        return cdna_info(anno.transcripts[op[1]], genome[world_chrom[op[1]]])
+    if kind == 'gseq':
+        return gene_seq_info(anno.genes[op[1]], genome[world_chrom[op[1]]])
+    if kind == 'g2tx':
+        return guard(anno.transcripts[op[1]].get_transcript_index, op[2])
+    if kind == 'tx2g':
+        return guard(anno.coordinate_transcript_to_genomic, op[2], op[1])
+    if kind == 'gene2tx':
+        return guard(anno.coordinate_gene_to_transcript, op[3], op[1], op[2])
+    if kind == 'exonic_txs':
+        return sorted(m.transcript.transcript_id for m in anno.get_transcripts_with_exonic_position(op[1], op[2]))
+    if kind == 'write':
+        buf = io.StringIO()
+        GtfIO.write(buf, anno)
+        return buf.getvalue()
+    raise ValueError(kind)
+
+def seq_info_cache(tx_model, chrom, cache):
+    try:
+        s = tx_model.get_transcript_sequence(chrom, cache=cache)
+    except Exception as e:  # noqa
+        return err_tag(e)
+    orf = None if s.orf is None else [int(s.orf.start), int(s.orf.end)]
+    return {'seq': str(s.seq), 'orf': orf, 'sec': [[int(x.start), int(x.end)] for x in s.selenocysteine],
+            'id': s.id, 'desc': s.description, 'loc': loc_of(s)}
+
+def run_ops(anno, genome, world_chrom, ops, writable, snap0, d):
+    """operation history on ONE annotation object.  After every operation the whole observer-visible
+    state (canonical dump of every model) must equal the snapshot taken BEFORE the history, and an
+    operation repeated later must return what it returned the first time."""
+    problems = []
+    first = {}
+    nw = 0
+    last_write = None
+    for i, op in enumerate(ops):
+        if op[0] == 'write' and not writable:
+            continue
+        try:
+            r = do_op(anno, genome, world_chrom, op)
+        except Exception as e:  # noqa
+            r = err_tag(e)
+        key = json.dumps(op[:3] if op[0] == 'seq' and False else op)
+        if op[0] == 'seq':
+            key = json.dumps(['seq', op[1]])          # cache flag must not change the result
+        if key in first:
+            if first[key] != r and len(problems) < 4:
+                a, b = first[key], r
+                what = 'text differs' if isinstance(a, str) and isinstance(b, str) and not a.startswith('E:') else \
+                    (sorted(f for f in a if a[f] != b.get(f)) if isinstance(a, dict) and isinstance(b, dict) else [str(a)[:80], str(b)[:80]])
+                problems.append({'step': i, 'op': op, 'kind': 'result_changed', 'what': what})
+        else:
+            first[key] = r
+        if op[0] == 'write':
+            nw += 1
+            last_write = r
+        if writable:
+            df = snap_diff(snap0, snapshot(anno))
+        else:                                          # on-disk: the model served for the touched key
+            df = None
+            if op[0] in ('seq', 'cdna', 'g2tx', 'tx2g') and not isinstance(r, str):
+                tid = op[1]
+                if dump_tx(anno.transcripts[tid]) != snap0['t'][tid]:
+                    df = ['t', tid, sorted(f for f in snap0['t'][tid] if snap0['t'][tid][f] != dump_tx(anno.transcripts[tid]).get(f))]
+        if df and len(problems) < 4:
+            problems.append({'step': i, 'op': op, 'kind': 'state_changed', 'what': df})
+            if writable:
+                snap0 = snapshot(anno)                 # report each change once
+    res = {'problems': problems, 'n_ops': len(ops), 'writes': nw, 'results': first}
+    if writable and last_write is not None and not last_write.startswith('E:'):
+        rt_path = os.path.join(d, 'history_rt.gtf')
+        with open(rt_path, 'w', encoding='utf-8') as f:
+            f.write(last_write)
+        try:
+            a2 = GenomicAnnotation()
+            a2.dump_gtf(rt_path)
+            res['reparsed'] = snapshot(a2)
+        except Exception as e:  # noqa
+            res['reparsed'] = err_tag(e)
+    return res
 
 def state_of(d):
     return [list(d._cached_keys), sorted(d._cache.keys())]
@@ -194,12 +317,13 @@ def _do_world(c, d, gpath, apath, ppath):
     for gene in world['genes']:
         chrom = genome[gene['chrom']]
         gm = anno.genes[gene['id']]
-        try:
-            seqs['gene'][gene['id']] = str(gm.get_gene_sequence(chrom).seq)
-        except Exception as e:  # noqa
-            seqs['gene'][gene['id']] = 'E:' + type(e).__name__
+        gi = gene_seq_info(gm, chrom)
+        seqs['gene'][gene['id']] = gi if isinstance(gi, str) else gi['seq']
+        seqs.setdefault('gene_loc', {})[gene['id']] = None if isinstance(gi, str) else gi['loc']
         for tx in gene['transcripts']:
             seqs['tx'][tx['id']] = seq_info(anno.transcripts[tx['id']], chrom)
+            if tx['cds'] or c.get('cdna_all'):
+                seqs.setdefault('cdna', {})[tx['id']] = cdna_info(anno.transcripts[tx['id']], chrom)
     out['seqs'] = seqs
     # ---- on-disk annotation, two ways of obtaining the pointers
     disk = {}
@@ -219,9 +343,14 @@ def _do_world(c, d, gpath, apath, ppath):
         for k in a1.transcripts.keys():
             h.write(a1.transcripts.get_pointer(k).to_line() + '\n')
     a2 = GenomicAnnotationOnDisk()
-    a2.init_handle(apath)
-    a2.load_index(Path(apath), source=a1.source)
-    disk['idx'] = run_history(a2, c['hist']['idx'], None)
+    try:
+        a2.init_handle(apath)
+        a2.load_index(Path(apath), source=a1.source)
+    except Exception as e:  # noqa   the idx files cannot be loaded at all: every idx-based part is skipped
+        out['idx_load_error'] = err_tag(e)
+        a2 = a1                                   # sequences through the on-disk annotation: use generate_index
+    if 'idx_load_error' not in out:
+        disk['idx'] = run_history(a2, c['hist']['idx'], None)
     # the pointer files as written (key, start, end, transcripts / coding flag)
     out['idx'] = {'g': [], 't': []}
     with open(gene_idx, 'rt') as h:
@@ -237,6 +366,8 @@ def _do_world(c, d, gpath, apath, ppath):
             continue
         a3 = GenomicAnnotationOnDisk()
         if hname.startswith('idx'):             # fresh annotation from the idx files
+            if 'idx_load_error' in out:
+                continue
             a3.init_handle(apath)
             a3.load_index(Path(apath), source=a1.source)
         else:                                   # fresh annotation from generate_index
@@ -252,6 +383,8 @@ def _do_world(c, d, gpath, apath, ppath):
         for tx in gene['transcripts']:
             try:
                 dseq[tx['id']] = seq_info(a2.transcripts[tx['id']], chrom)
+                if tx['cds']:
+                    out.setdefault('disk_cdna', {})[tx['id']] = cdna_info(a2.transcripts[tx['id']], chrom)
             except Exception as e:  # noqa
                 dseq[tx['id']] = 'E:' + type(e).__name__
     out['disk_seqs'] = dseq
@@ -261,6 +394,7 @@ def _do_world(c, d, gpath, apath, ppath):
     buf = io.StringIO()
     try:
         GtfIO.write(buf, anno)
+        out['roundtrip_text_md5'] = hashlib.md5(buf.getvalue().encode('utf-8')).hexdigest()
         rt_path = os.path.join(d, 'roundtrip.gtf')
         with open(rt_path, 'w', encoding='utf-8') as f:
             f.write(buf.getvalue())
@@ -271,6 +405,33 @@ def _do_world(c, d, gpath, apath, ppath):
                             'gene_order': list(anno2.genes.keys()), 'tx_order': list(anno2.transcripts.keys())}
     except Exception as e:  # noqa
         out['roundtrip'] = 'E:' + type(e).__name__ + ':' + str(e)[:200]
+    # ---- operation histories on ONE object: a fresh fully parsed annotation and a fresh on-disk one
+    if c.get('ops'):
+        world_chrom = {}
+        for gene in world['genes']:
+            world_chrom[gene['id']] = gene['chrom']
+            for tx in gene['transcripts']:
+                world_chrom[tx['id']] = gene['chrom']
+        ah = GenomicAnnotation()
+        ah.dump_gtf(apath)
+        if proteome is not None:
+            ah.check_protein_coding(load_proteome(ppath), True)
+        h = run_ops(ah, genome, world_chrom, c['ops'], True, snapshot(ah), d)
+        h['snapshot_equals_main'] = snapshot(ah) == out['dump'] if not h['problems'] else None
+        out['history'] = h
+        ad = GenomicAnnotationOnDisk()
+        if 'idx_load_error' in out:
+            ad.generate_index(apath)
+            if proteome is not None:
+                ad.check_protein_coding(load_proteome(ppath), True)
+        else:
+            ad.init_handle(apath)
+            ad.load_index(Path(apath), source=out['disk_source'])
+        out['disk_history'] = run_ops(ad, genome, world_chrom, c['ops'], False, out['dump'], d)
+        for hh in (out['history'], out['disk_history']):
+            for k, v in list(hh['results'].items()):
+                if k.startswith('["write"') and isinstance(v, str) and not v.startswith('E:'):
+                    hh['results'][k] = hashlib.md5(v.encode('utf-8')).hexdigest()
     return out
 
 def do_cache_only(c):
